@@ -129,7 +129,7 @@ def call(fn):
         warnings.simplefilter('ignore')
         try:
             return 'returned', fn()
-        except (ValueError, KeyError, SolutionError, NonConvergenceError) as e:
+        except (ValueError, KeyError, IndexError, SolutionError, NonConvergenceError) as e:
             return type(e).__name__, e
         except Exception as e:
             return type(e).__name__, e
@@ -161,7 +161,8 @@ def run_record(rec, kind):
         if not visited or visited[-1] != p + 1:
             visited.append(p + 1)
     obs['visited'] = visited
-    exp_visited = list(rec['visited'])
+    # a period rejected as infeasible makes no pass, so the pass log cannot show it
+    exp_visited = [p for p in rec['visited'] if not (p - cfg['lags'] < 1 or p + cfg['leads'] > L)]
     # periods whose summary makes no pass at all cannot be seen in the pass log (max_iter >= 1 always here)
     if visited != exp_visited:
         diffs.append('visited')
